@@ -34,6 +34,7 @@ type caseT struct {
 	Names    []string `json:"names,omitempty"` // enum / set members
 	Storable bool     `json:"storable"`        // the value is a fixpoint of Type.Convert (predicate applies)
 	Wire     *wireT   `json:"wire,omitempty"`
+	Doc      *jdoc    `json:"doc,omitempty"`
 }
 
 var ctx = sql.NewEmptyContext()
@@ -822,6 +823,10 @@ func coqSty(ty string, n int) string {
 		return fmt.Sprintf("(VarChar %d)", n)
 	case "varbinary":
 		return fmt.Sprintf("(VarBinary %d)", n)
+	case "char":
+		return fmt.Sprintf("(Char %d)", n)
+	case "binary":
+		return fmt.Sprintf("(Binary %d)", n)
 	}
 	return "Text"
 }
@@ -832,6 +837,10 @@ func mkStrType(ty string, n int) sql.Type {
 		return types.MustCreateString(sqltypes.VarChar, int64(n), sql.Collation_utf8mb4_0900_bin)
 	case "varbinary":
 		return types.MustCreateBinary(sqltypes.VarBinary, int64(n))
+	case "char":
+		return types.MustCreateString(sqltypes.Char, int64(n), sql.Collation_utf8mb4_0900_bin)
+	case "binary":
+		return types.MustCreateBinary(sqltypes.Binary, int64(n))
 	}
 	return types.Text
 }
@@ -844,11 +853,19 @@ func runStr(c *lib.Ctx, cs caseT) {
 	}
 	t := mkStrType(cs.Ty, cs.P)
 	var v interface{} = string(raw)
-	if cs.Ty == "varbinary" {
+	if cs.Ty == "varbinary" || cs.Ty == "binary" {
 		v = raw
 	}
-	_, _, cerr0 := t.Convert(ctx, v)
-	cs.Storable = cerr0 == nil
+	st0, _, cerr0 := t.Convert(ctx, v)
+	cs.Storable = false // storable = a fixpoint of Convert (BINARY(n): already padded to n bytes)
+	if cerr0 == nil {
+		switch b := st0.(type) {
+		case string:
+			cs.Storable = b == string(raw)
+		case []byte:
+			cs.Storable = string(b) == string(raw)
+		}
+	}
 	txt, ok, err := sqlText(t, v)
 	if !ok {
 		id := c.CaseNoModel(cs, "")
@@ -875,14 +892,14 @@ func runStr(c *lib.Ctx, cs caseT) {
 		t.MaxTextResponseByteLength(ctx), lib.CoqBytes(txt), backTerm), cs, key)
 	c.Count("str_" + cs.Ty)
 	if !cs.Storable {
-		c.Count("str_too_long_input")
+		c.Count("str_not_a_stored_value_input")
 		return
 	}
 	check(c, id, cs, t, v, txt, back, cerr, "str/"+cs.Ty)
 }
 
 func genStr(r *lib.RNG) caseT {
-	cs := caseT{Kind: "str", Ty: lib.Pick(r, []string{"varchar", "varchar", "varbinary", "text"})}
+	cs := caseT{Kind: "str", Ty: lib.Pick(r, []string{"varchar", "varchar", "varbinary", "text", "char", "binary", "binary"})}
 	cs.P = lib.Pick(r, []int{1, 2, 3, 5, 8, 16, 40})
 	target := cs.P + r.Intn(3) - 1 // around the limit: one below, exact, one above
 	if r.Chance(1, 3) {
@@ -893,13 +910,16 @@ func genStr(r *lib.RNG) caseT {
 		target = r.Intn(60)
 	}
 	var sb []byte
-	if cs.Ty == "varbinary" && r.Bool() { // arbitrary bytes, malformed UTF-8 included (rune counting only matters here)
+	if cs.Ty == "binary" && r.Chance(2, 3) {
+		target = cs.P // exactly n bytes: a stored value
+	}
+	if (cs.Ty == "varbinary" || cs.Ty == "binary") && r.Bool() { // arbitrary bytes, malformed UTF-8 included (rune counting only matters here)
 		for i := 0; i < target; i++ {
 			sb = append(sb, lib.Pick(r, []byte{0x00, 0x41, 0x7f, 0x80, 0xbf, 0xc0, 0xc2, 0xe0, 0xa0, 0xed, 0x9f, 0xf0, 0x90, 0xf4, 0x8f, 0xf5, 0xff, 0xe2, 0x82, 0xac}))
 		}
 	} else {
 		for i := 0; i < target; i++ {
-			if cs.Ty == "varbinary" && len(sb) >= target {
+			if (cs.Ty == "varbinary" || cs.Ty == "binary") && len(sb) >= target {
 				break
 			}
 			sb = append(sb, lib.Pick(r, runePool)...)
@@ -935,15 +955,21 @@ func run(c *lib.Ctx, cs caseT) {
 		runWire(c, cs)
 	case "wireslow":
 		runWireSlow(c, cs)
+	case "meta":
+		runMeta(c, cs)
+	case "json":
+		runJSON(c, cs)
 	default:
 		panic("unknown kind " + cs.Kind)
 	}
 }
 
 func gen(r *lib.RNG) caseT {
-	switch r.Intn(22) {
+	switch r.Intn(24) {
 	case 20, 21:
 		return genStr(r)
+	case 22, 23:
+		return genJSON(r)
 	case 0, 1, 2, 3:
 		return genInt(r)
 	case 4, 5, 6, 7, 8:
@@ -971,7 +997,7 @@ func dateUs(y, m, d int) string {
 
 func main() {
 	lib.Main("C28", func(c *lib.Ctx) {
-		c.Header = "From Coq Require Import List NArith ZArith.\nImport ListNotations.\nFrom GMS Require Import Codec.C28Wire Codec.C28Str Codec.C28Bin Corr.C28.\nOpen Scope N_scope."
+		c.Header = "From Coq Require Import List NArith ZArith.\nImport ListNotations.\nFrom GMS Require Import Codec.C28Json.\nFrom GMS Require Import Codec.C28Wire Codec.C28Str Codec.C28Bin Codec.C28Meta Corr.C28.\nOpen Scope N_scope."
 		c.CaseType = "C28.case"
 		c.MismatchFn = "C28.mismatches"
 		c.SetRule("values of every modelled type handed to Type.SQL: integers of all 10 width/sign combinations (type bounds, " +
@@ -1035,6 +1061,17 @@ func main() {
 			{Kind: "str", Ty: "varbinary", P: 4, Val: "ff61f09f"},
 			{Kind: "str", Ty: "varbinary", P: 3, Val: "ff61f09f"},
 			{Kind: "str", Ty: "text", Val: hex.EncodeToString([]byte("x y €"))},
+			{Kind: "meta"},
+			{Kind: "json", Doc: &jdoc{K: "int", I: "9007199254740993"}},
+			{Kind: "json", Doc: &jdoc{K: "int", I: "18446744073709551615"}},
+			{Kind: "json", Doc: &jdoc{K: "int", I: "-9223372036854775808"}},
+			{Kind: "json", Doc: &jdoc{K: "str", S: hexOf("a\"b\\c\n日本\x01")}},
+			{Kind: "json", Doc: &jdoc{K: "obj", O: []jmember{{hexOf("b"), &jdoc{K: "int", I: "1"}}, {hexOf("aa"), &jdoc{K: "arr", A: []*jdoc{{K: "null"}, {K: "str", S: hexOf("x")}}}}}}},
+			{Kind: "str", Ty: "char", P: 3, Val: hex.EncodeToString([]byte("ab "))},
+			{Kind: "str", Ty: "char", P: 3, Val: hex.EncodeToString([]byte("日本語"))},
+			{Kind: "str", Ty: "binary", P: 4, Val: "6162"},
+			{Kind: "str", Ty: "binary", P: 4, Val: "61620000"},
+			{Kind: "str", Ty: "binary", P: 2, Val: "616263"},
 			{Kind: "wireslow", P: 700},
 			{Kind: "wireslow", P: 300},
 			{Kind: "bit", P: 64, Val: "18446744073709551615"},
@@ -1048,7 +1085,7 @@ func main() {
 		// the wire findings (fractional seconds of TIMESTAMP(6) / TIME(6) lost over the binary protocol)
 		run(c, caseT{Kind: "wire", Storable: true, Wire: &wireT{Vals: []string{"1", "1", "1", "1", "1", "1", "1", "1", "1", "1", "1.000", "1", "1",
 			"'2024-01-02'", "'2024-01-02 03:04:05.5'", "'2024-01-02 03:04:05'", "'2024-01-02 03:04:05.25'", "'1990-01-11 12:37:38.190440'",
-			"'769:53:03.209061'", "2024", "1", "1", "1", "'a'", "'a'"}}})
+			"'769:53:03.209061'", "2024", "1", "1", "1", "'a'", "'a'", "'v'", "'c '", "'b'", "'b'", "'t'", "'[1, \"x\"]'"}}})
 		nWire := c.N / 10
 		for i := len(corpus); i < c.N-nWire; i++ {
 			run(c, gen(c.R.Fork()))
